@@ -11,7 +11,7 @@ that a destructor releasing something again is part of the same invocation.
 
     bindgen_mock_cpp.gen(model, header_text) -> (driver source, expected entries)"""
 import re
-import cbgen_cpp
+import cbgen, cbgen_cpp
 
 CT = cbgen_cpp.CPPTYPE
 CONT_T = {"Box": "CBox<void>", "Mut": "void *", "Ref": "const void *"}
@@ -41,7 +41,8 @@ def gen(model, header_text):
     traits = {t["name"]: t for t in model["traits"]}
     c = []
     c.append('#include <cstdio>\n#include <cstring>\n#include <utility>\n#include "processed.hpp"\n')
-    c.append("static unsigned char SBUF[8] = {1,2,3,4,5,6,7,8};\nstatic int INST; static int CTXV;\n")
+    c.append("static unsigned char SBUF[8] = {1,2,3,4,5,6,7,8};\nstatic int INST; static int INST2; static int CTXV; static int CBX;\n")
+    c.append("static bool mock_cb_Pt(void *c, Pt v) { (void)c; (void)v; return true; }\nstatic bool mock_cb_u64(void *c, uint64_t v) { (void)c; (void)v; return true; }\n")
     c.append('static void mock_box_drop(void *p) { printf("{\\"ev\\":\\"box_drop\\",\\"ok\\":%d}\\n", p == (void *)&INST); }\n')
     c.append('static const void *mock_arc_clone(const void *p) { printf("{\\"ev\\":\\"ctx_clone\\",\\"ok\\":%d}\\n", p == (const void *)&CTXV); return p; }\n')
     c.append('static void mock_arc_drop(const void *p) { printf("{\\"ev\\":\\"ctx_drop\\",\\"ok\\":%d}\\n", p == (const void *)&CTXV); }\n')
@@ -67,7 +68,7 @@ def gen(model, header_text):
                 fn = "mock_%d_%s_%s" % (ti, tr, m["name"])
                 recv = {"ref": "const C%d *cont" % ti, "mut": "C%d *cont" % ti, "own": "C%d cont" % ti}[m["recv"]]
                 args = "".join(", %s a%d" % (CT[t], i) for i, t in enumerate(m["args"]))
-                ret = CT[m["ret"]]
+                ret = ("C%d" % ti) if m["ret"] == "cont" else CT[m["ret"]]
                 body = []
                 if m["recv"] == "own":
                     body.append('    int cont_ok = (cont.instance%s == (void *)&INST);' % (".instance" if cont == "Box" else ""))
@@ -85,6 +86,8 @@ def gen(model, header_text):
                         fmt.append("[%d,%llu]"); vals.append("(int)(a%d.data - SBUF), (unsigned long long)a%d.len" % (i, i))
                     elif t == "ptr":
                         fmt.append("%d"); vals.append("(int)(a%d - SBUF)" % i)
+                    elif t in cbgen.CB_ELEM:
+                        fmt.append("[%d,%d]"); vals.append("(int)(a%d.context == (void *)&CBX), (int)(a%d.func == mock_cb_%s)" % (i, i, cbgen.CB_ELEM[t][0]))
                 body.append('    printf("{\\"ev\\":\\"slot\\",\\"ty\\":%d,\\"tr\\":\\"%s\\",\\"m\\":\\"%s\\",\\"cont_ok\\":%%d,\\"args\\":[%s]}\\n", cont_ok%s);'
                             % (ti, tr, m["name"], ",".join(fmt), ("," + ",".join(vals)) if vals else ""))
                 if m["recv"] == "own":
@@ -94,9 +97,12 @@ def gen(model, header_text):
                     if ctx == "Arc":
                         body.append("    if (cont.context.drop_fn) cont.context.drop_fn(cont.context.instance);")
                 uid = ti * 100 + len(rvals)
-                rvals[(ti, tr, m["name"])] = {"void": [], "u64": [7000 + uid], "i32": [300 + uid], "Pt": [11 + uid, 1000 + uid, 5]}[m["ret"]]
+                rvals[(ti, tr, m["name"])] = {"void": [], "u64": [7000 + uid], "i32": [300 + uid], "Pt": [11 + uid, 1000 + uid, 5], "cont": [1, 1, 1]}[m["ret"]]
+                newc = "    { C%d r = *cont; r.instance%s = &INST2;%s%s return r; }" % (
+                    ti, ".instance" if cont == "Box" else "", " r.instance.drop_fn = 0;" if cont == "Box" else "",
+                    " r.context.clone_fn = 0; r.context.drop_fn = 0;" if ctx == "Arc" else "")
                 rv = {"void": "", "u64": "    return %dULL;" % (7000 + uid), "i32": "    return %d;" % (300 + uid),
-                      "Pt": "    { Pt r; r.x = %d; r.y = %d; r.z = %d; return r; }" % (11 + uid, 1000 + uid, 5)}[m["ret"]]
+                      "Pt": "    { Pt r; r.x = %d; r.y = %d; r.z = %d; return r; }" % (11 + uid, 1000 + uid, 5), "cont": newc}[m["ret"]]
                 c.append("static %s %s(%s%s) {\n%s\n%s\n}\n" % (ret, fn, recv, args, "\n".join(body), rv))
         for tr in trs:
             c.append("static %sVtbl<C%d> VT_%d_%s;\n" % (tr, ti, ti, tr))
@@ -157,15 +163,20 @@ def gen(model, header_text):
                         argv.append("CSliceRef<uint8_t>((const char *)SBUF + %d, %d)" % (i + 1, 4)); sent.append([i + 1, 4])
                     elif t == "ptr":
                         argv.append("SBUF + %d" % (i + 2)); sent.append(i + 2)
+                    elif t in cbgen.CB_ELEM:
+                        argv.append("mkcb_%s()" % cbgen.CB_ELEM[t][0]); sent.append([1, 1])
                 rec["sent"] = sent
                 rec["expret"] = rvals.get((ti, tr, m["name"]), [])
                 recvx = "std::move(o)." if m["recv"] == "own" else "o."
                 call = "%s%s(%s)" % (recvx, name, ", ".join(argv))
-                retdecl = {"void": "", "Pt": "    Pt r; memset(&r, 0, sizeof(r));", "u64": "    unsigned long long r = 0;", "i32": "    unsigned long long r = 0;"}[m["ret"]]
-                retprint = {"void": '    printf("{\\"ev\\":\\"ret\\",\\"k\\":%d,\\"val\\":[]}\\n");' % k,
+                retdecl = {"void": "", "Pt": "    Pt r; memset(&r, 0, sizeof(r));", "u64": "    unsigned long long r = 0;", "i32": "    unsigned long long r = 0;",
+                           "cont": "    int r0 = 0, r1 = 0, r2 = 0;"}[m["ret"]]
+                vt_ok = "rr.vtbl == o.vtbl" if kind == "obj" else " && ".join("rr.vtbl_%s == o.vtbl_%s" % (t.lower(), t.lower()) for t in trs)
+                retprint = {"cont": '    printf("{\\"ev\\":\\"ret\\",\\"k\\":%d,\\"val\\":[%%d,%%d,%%d]}\\n", r0, r1, r2);' % k, "void": '    printf("{\\"ev\\":\\"ret\\",\\"k\\":%d,\\"val\\":[]}\\n");' % k,
                             "Pt": '    printf("{\\"ev\\":\\"ret\\",\\"k\\":%d,\\"val\\":[%%d,%%lld,%%d]}\\n", r.x, (long long)r.y, (int)r.z);' % k}.get(
                                 m["ret"], '    printf("{\\"ev\\":\\"ret\\",\\"k\\":%d,\\"val\\":[%%llu]}\\n", r);' % k)
-                assign = ("    %s;" % call) if m["ret"] == "void" else ("    r = (unsigned long long)%s;" % call if m["ret"] != "Pt" else "    r = %s;" % call)
+                assign = ("    { O%d rr = %s; r0 = (int)(%s); r1 = (int)(rr.container.instance%s == (void *)&INST2); r2 = (int)(%s); }" % (
+                    ti, call, vt_ok, ".instance" if cont == "Box" else "", "rr.container.context.instance == (const void *)&CTXV" if ctx == "Arc" else "1")) if m["ret"] == "cont" else ("    %s;" % call) if m["ret"] == "void" else ("    r = (unsigned long long)%s;" % call if m["ret"] != "Pt" else "    r = %s;" % call)
                 blk = ["  {", retdecl, "  {", mkobj("o"), "    EXPECT_CONT = &o.container;", '    printf("{\\"ev\\":\\"call\\",\\"k\\":%d}\\n");' % k, assign]
                 if m["recv"] == "own":
                     # returned only when the moved-from object is gone
@@ -176,5 +187,9 @@ def gen(model, header_text):
                             '    printf("{\\"ev\\":\\"ret\\",\\"k\\":%d,\\"val\\":[]}\\n");' % kd, "  }"]
                 calls.append("\n".join(blk))
     c.append("static Pt mkpt(int x, long long y, int z) { Pt p; p.x = x; p.y = y; p.z = (uint8_t)z; return p; }\n")
+    for cb in cbgen.callback_kinds(model):
+        nm, _ = cbgen.CB_ELEM[cb]
+        ety = {"Pt": "Pt", "u64": "uint64_t"}[nm]
+        c.append("static OpaqueCallback<%s> mkcb_%s() { OpaqueCallback<%s> cb; cb.context = &CBX; cb.func = mock_cb_%s; return cb; }\n" % (ety, nm, ety, nm))
     c.append("int main(void) {\n%s\n  return 0;\n}\n" % "\n".join(calls))
     return "".join(c), expected
